@@ -220,6 +220,14 @@ fn hanging_lhs_context(binop: &BinOp) -> ExpressionContext {
     }
 }
 
+/// Whether there are comments directly inside of a pair of parentheses: `( -- comment` or `-- comment )`.
+/// If there are, the parentheses are kept, so that the comments are not lost.
+pub fn parentheses_contain_comments(contained: &ContainedSpan) -> bool {
+    let (start_parens, end_parens) = contained.tokens();
+    start_parens.has_trailing_comments(CommentSearch::All)
+        || end_parens.has_leading_comments(CommentSearch::All)
+}
+
 /// Formats an Expression node
 pub fn format_expression(ctx: &Context, expression: &Expression, shape: Shape) -> Expression {
     format_expression_internal(ctx, expression, ExpressionContext::Standard, shape)
@@ -291,7 +299,10 @@ fn format_expression_internal(
             let use_internal_expression = check_excess_parentheses(expression, context);
 
             // If the context is for a prefix, we should always keep the parentheses, as they are always required
-            if use_internal_expression && !keep_parentheses {
+            if use_internal_expression
+                && !keep_parentheses
+                && !parentheses_contain_comments(contained)
+            {
                 // Get the leading and trailing comments from contained span and append them onto the expression
                 let (start_parens, end_parens) = contained.tokens();
                 let leading_comments = start_parens
@@ -1368,7 +1379,34 @@ fn format_hanging_expression_(
             let use_internal_expression = check_excess_parentheses(expression, expression_context);
 
             // If the context is for a prefix, we should always keep the parentheses, as they are always required
-            if use_internal_expression && !keep_parentheses {
+            if use_internal_expression
+                && !keep_parentheses
+                && !parentheses_contain_comments(contained)
+            {
+                // Keep the comments around the parentheses, in the same way as when formatting on a single line
+                let (start_parens, end_parens) = contained.tokens();
+                let leading_comments = start_parens
+                    .leading_trivia()
+                    .filter(|token| trivia_util::trivia_is_comment(token))
+                    .flat_map(|x| {
+                        vec![
+                            create_indent_trivia(ctx, shape),
+                            format_moved_comment(ctx, x),
+                            create_newline_trivia(ctx),
+                        ]
+                    })
+                    .collect();
+                let trailing_comments = end_parens
+                    .trailing_trivia()
+                    .filter(|token| trivia_util::trivia_is_comment(token))
+                    .flat_map(|x| {
+                        vec![
+                            Token::new(TokenType::spaces(1)),
+                            format_moved_comment(ctx, x),
+                        ]
+                    })
+                    .collect();
+
                 format_hanging_expression_(
                     ctx,
                     expression,
@@ -1376,6 +1414,8 @@ fn format_hanging_expression_(
                     expression_context,
                     lhs_range,
                 )
+                .update_leading_trivia(FormatTriviaType::Append(leading_comments))
+                .update_trailing_trivia(FormatTriviaType::Append(trailing_comments))
             } else {
                 let contained = format_contained_span(ctx, contained, lhs_shape);
 
@@ -1385,6 +1425,7 @@ fn format_hanging_expression_(
 
                 let expression_str = formatted_expression.to_string();
                 if !contains_comments(expression)
+                    && !parentheses_contain_comments(&contained)
                     && !lhs_shape.add_width(2 + expression_str.len()).over_budget()
                 {
                     // The expression inside the parentheses is small, we do not need to break it down further
